@@ -20,7 +20,22 @@ CLAIMS = {
   note=('Trusted: Coq kernel + vm_compute; the hand model and the harness; Python file-object semantics. '
         'Not modelled: short reads on truncated images, PyCdlibIO over a boot-info-table file, manage_fp=True (own fp per open).'),
   technique='Coq refinement proof (stream model -> in-memory stream spec) + model/implementation differential run',
-  design='§8.16'),
+  design='§8.16'), 'C19': dict(
+  category='proof',
+  text=('Theorems C19_offset, C19_decode_dr, C19_decode_vd, C19_decode_udf (Coq, closed): for EVERY instant t in '
+        '1970-01-01..2099-12-31 and EVERY zone offset 900*q s, -48<=q<=56, in force at t, the TRANSLATED '
+        'utils.gmtoffset_from_tm returns q, and the 7-byte (also Rock Ridge TF), 17-byte and UDF timestamps made '
+        'from t decode (local fields minus recorded offset in the field\'s unit) to t exactly, fit their fields, '
+        'and parse-then-record is the identity.  Pointwise in (t,q), so DST/year/leap boundaries are included. '
+        'Proved from a vm_compute sweep of all 47487 days of the range (finite, bound in the statement) plus lia. '
+        'Tie: gmtoffset_from_tm is regenerated from /repo on every run; the hand models of new/record/parse are '
+        'compared byte-for-byte with pycdlib under ~40 (quick) / all ~600 (thorough) TZ settings x ~300-420 instants '
+        '(every DST transition of each zone +-1s), and an independent decoder evaluates the property on the bytes.'),
+  note=('Trusted: Coq kernel + vm_compute; translator; libc localtime modelled as gmtime(t+off) (validated per instant); '
+        'VolumeDescriptorDate.new(0.0) is the documented "unspecified" sentinel and is excluded (theorem C19_vd_zero_is_unspecified). '
+        'Offsets that are not multiples of 15 min (historic LMT) are outside the property and skipped (counted).'),
+  technique='Coq proof over translated gmtoffset_from_tm + calendar sweep; byte-level model/implementation differential run over TZ x instants',
+  design='§8.19'),
 }
 
 NA_REASON = 'check not built yet (work in progress; see DESIGN.md section 8)'
